@@ -50,11 +50,22 @@ def realise(ctx, org, k):
             ctx.add_cleanup(cfun, layer=s["cl_layer"])
         else:
             ctx.add_cleanup(cfun)
+    if o.startswith("nest_"):
+        x = {"nest_pass": "pass", "nest_fail": "fail", "nest_error": "error", "nest_pending": "pending"}.get(o, "undef")
+        ctx.execute_steps((u"Given nosub %s %d %d" if x == "undef" else u"Given sub %s %d %d") % (x, sid, pos))
+        return
     if o == "fail": assert False, "M"
     if o == "error": raise RuntimeError("X")
     if o == "pending": raise StepNotImplementedError("P")
     if o == "kbd": raise KeyboardInterrupt()
     if o == "skip": sc.skip("S")
+
+def sub(ctx, x, sid, pos):
+    from behave.api.pending_step import StepNotImplementedError
+    rec(k="sub", el=sid, pos=pos, outcome=x)
+    if x == "fail": assert False, "sub"
+    if x == "error": raise RuntimeError("sub")
+    if x == "pending": raise StepNotImplementedError("sub")
 
 def hook(nm, ctx, *a):
     N[0] += 1
@@ -114,6 +125,10 @@ register_type(Bad=conv_bad)
 @step("{org:w} {k:d}")
 def any_step(ctx, org, k):
     V.realise(ctx, org, k)
+
+@step("sub {x:w} {sid:d} {pos:d}")
+def sub_step(ctx, x, sid, pos):
+    V.sub(ctx, x, sid, pos)
 
 @step("bad {org:w} {k:Bad}")
 def bad_step(ctx, org, k):
